@@ -27,30 +27,16 @@ PLAN = {
 ASSUMPTIONS = ["claim restricted to the calibrated neighbourhood stated in RULE (un-damped Gauss-Newton may legitimately diverge outside); 'eventually' is decided as 'within 50 iterations'"]
 
 
-def run_case(ctx, i, rng):
-    k = "se2" if i % 2 == 0 else "se3"
-    noise_free = (i % 4 >= 2) and (i % 8 >= 4)  # a quarter of the cases
-    nmax = 40 if ctx.tier == "thorough" else 24
-    n = int(min(nmax, 3 + rng.geometric(0.12)))
-    n_loops = int(rng.integers(0, n // 2 + 1))
-    n_lm = int(rng.integers(0, 4))
-    it = float(rng.uniform(0.01, 0.15))
-    ir = float(rng.uniform(0.005, 0.08))
-    mt, mr = (0.0, 0.0) if noise_free else (float(rng.uniform(0.001, 0.03)), float(rng.uniform(0.0005, 0.01)))
-    cond = float(10 ** rng.uniform(0, 3))
-    tol = float(10 ** rng.uniform(-10, -3))
-    uturn = float(rng.choice([0.0, 0.0, 0.3, 0.6]))
-    if uturn:
-        ctx.count("class:u_turns(relative rotation ~ pi)")
-    spec = gen.trajectory_graph(rng, k, n, n_loops=n_loops, n_lm=n_lm, meas_t=mt, meas_r=mr, init_t=it, init_r=ir, cond=cond, cross=bool(rng.random() < 0.7), uturn=uturn)
+def convergence_check(ctx, spec, k, tol, noise_free, n_loops=0, n_lm=0, max_iter=50, where="generated", decrement=True):
+    """Optimize spec with the real code and decide clauses (a)-(c).  Returns (res, fin, lam2, chi_prev) or None."""
     g = M.build(spec)
     case = {"graph": {kk: v for kk, v in spec.items() if kk != "truth"}, "tol": tol}
     chi0_ref = M.ref_graph_chi2(g)
     try:
-        res = M.quiet_optimize(g, tol=tol, max_iter=50)
+        res = M.quiet_optimize(g, tol=tol, max_iter=max_iter)
     except Exception as ex:
         ctx.check("converged-within-50", False, {"exception": type(ex).__name__, "kind": k}, {"message": str(ex)[:300]}, case)
-        return
+        return None
     ctx.count("class:" + k)
     ctx.count("class:loops" if n_loops else "class:tree")
     if n_lm:
@@ -60,10 +46,10 @@ def run_case(ctx, i, rng):
     fin = res.final_chi2
     ok_fin = fin is not None and math.isfinite(fin)
     ctx.check("chi2-not-increased", ok_fin and fin <= res.initial_chi2 * (1 + 1e-9) + 1e-300, feats, {"initial": res.initial_chi2, "final": fin}, case)
-    ctx.check("converged-within-50", bool(res.converged) and res.num_iterations is not None and res.num_iterations <= 50, feats,
+    ctx.check("converged-within-50", bool(res.converged) and res.num_iterations is not None and res.num_iterations <= max_iter, feats,
               {"converged": res.converged, "num_iterations": res.num_iterations}, case)
     if not ok_fin:
-        return
+        return None
     seq = [res.initial_chi2] + [r.chi2 for r in res.iteration_results if r.chi2 is not None]
     chi_prev = seq[-2] if len(seq) >= 2 else seq[-1]
     H, b, chi_f, idx, nn = M.assemble(g, "ref")
@@ -101,7 +87,54 @@ def run_case(ctx, i, rng):
             wd = max(wd, dt, dr)
         if tol <= 1e-6:
             ctx.check("noise-free-relative-poses-match-truth", wd <= 1e-6, feats, {"worst_distance": wd, "tol": tol}, case)
+    return res, fin, lam2, chi_prev
+
+
+def run_case(ctx, i, rng):
+    k = "se2" if i % 2 == 0 else "se3"
+    noise_free = (i % 4 >= 2) and (i % 8 >= 4)  # a quarter of the cases
+    nmax = 40 if ctx.tier == "thorough" else 24
+    n = int(min(nmax, 3 + rng.geometric(0.12)))
+    n_loops = int(rng.integers(0, n // 2 + 1))
+    n_lm = int(rng.integers(0, 4))
+    it = float(rng.uniform(0.01, 0.15))
+    ir = float(rng.uniform(0.005, 0.08))
+    mt, mr = (0.0, 0.0) if noise_free else (float(rng.uniform(0.001, 0.03)), float(rng.uniform(0.0005, 0.01)))
+    cond = float(10 ** rng.uniform(0, 3))
+    tol = float(10 ** rng.uniform(-10, -3))
+    uturn = float(rng.choice([0.0, 0.0, 0.3, 0.6]))
+    if uturn:
+        ctx.count("class:u_turns(relative rotation ~ pi)")
+    spec = gen.trajectory_graph(rng, k, n, n_loops=n_loops, n_lm=n_lm, meas_t=mt, meas_r=mr, init_t=it, init_r=ir, cond=cond, cross=bool(rng.random() < 0.7), uturn=uturn)
+    out = convergence_check(ctx, spec, k, tol, noise_free, n_loops, n_lm)
+    if out is None:
+        return
+    res, fin, lam2, chi_prev = out
     if res.num_iterations >= 2 and (res.initial_chi2 > 100 * fin or res.initial_chi2 > 1e-6):
         ctx.nontrivial(gen.fingerprint(spec))
     ctx.sample({"kind": k, "poses": n, "loops": n_loops, "landmarks": n_lm, "init_sigma": [it, ir], "noise_sigma": [mt, mr], "tol": tol, "iterations": res.num_iterations,
                 "chi2": [res.initial_chi2, fin], "lambda2_over_tol_chi2prev": lam2 / max(tol * chi_prev, 1e-300)}, cap=3)
+
+
+def _dataset_case(name, nmax, augment):
+    def f(ctx):
+        from .. import datasets
+
+        if not datasets.available(name):
+            ctx.skip("dataset file missing: " + name)
+            return
+        rng = np.random.default_rng([5, nmax or 0, int(augment)])
+        spec = datasets.load_spec(name, nmax)
+        if augment:
+            spec = datasets.augment_with_landmarks(rng, spec, 20, cross_information=False)
+        k = "se2" if name == "intel" else "se3"
+        try:
+            convergence_check(ctx, spec, k, 1e-4, False, 1, int(augment), max_iter=20, where="dataset:" + name)
+        except Skip as sk:
+            ctx.skip("dataset %s: %s" % (name, sk.reason))
+        ctx.count("dataset:" + name)
+        ctx.nontrivial("dataset-%s-%s-%s" % (name, nmax, augment))
+    return f
+
+
+DATASET_CASES = [_dataset_case("intel", None, False), _dataset_case("garage", 500, False), _dataset_case("intel", 400, True), _dataset_case("garage", 300, True)]
